@@ -23,6 +23,8 @@ from typing import List, Optional
 
 from engine.src import FunctionInfo, own_nodes, own_nodes_incl_lambda, src_of, AnalysisError
 from engine.util import const_value, enclosing_tests
+from engine.guards import cond_text
+from .sem import expander, ctext, want, stmt_of, paths, block_paths, RAISE, BREAK, CONTINUE
 
 RULES = {
     "C12.a": "leaf enumeration sites share one of two confirmed leaf predicates over all nodes; predict_leaves maps argmax back through the same index list",
@@ -35,14 +37,99 @@ TD = "mlinsights.mltree.tree_digitize"
 
 import re
 
-_P1 = re.compile(r"^(?P<t>[\w\.]+)\.children_left\[(?P<i>\w+)\] == TREE_LEAF$")
-_P2 = re.compile(r"^(?P<t>[\w\.]+)\.children_left\[(?P<i>\w+)\] <= (?P=i) and (?P=t)\.children_right\[(?P=i)\] <= (?P=i)$")
+_P1 = re.compile(r"^(?P<t>.+?)\.children_left\[(?P<i>\w+)\] == (TREE_LEAF|-1)$")
+_P2 = re.compile(r"^(?P<t>.+?)\.children_left\[(?P<i>\w+)\] <= (?P=i) and (?P=t)\.children_right\[(?P=i)\] <= (?P=i)$")
 
 
-def _leaf_pred(test: ast.AST):
-    t = src_of(test)
+def _leaf_pred_text(t: str):
     m = _P1.match(t) or _P2.match(t)
     return (m.group("t"), m.group("i")) if m else None
+
+
+def _norm_enumeration(repo, fi, target, it, tests, at):
+    """(node variable, tree text, iteration text, test text) of an enumeration of
+    node ids; `for i, c in enumerate(S)` is read as `for i in range(len(S))`
+    with c = S[i]; local aliases of the tree's arrays are expanded"""
+    ex = expander(repo)
+    sub = {}
+    iv = None
+    it_x = ex.norm_expr(it, fi, at)
+    if isinstance(it_x, ast.Call) and ast.unparse(it_x.func) == "enumerate" and isinstance(target, ast.Tuple) and len(target.elts) == 2 and all(isinstance(e, ast.Name) for e in target.elts):
+        iv = target.elts[0].id
+        S = it_x.args[0]
+        sub[target.elts[1].id] = ast.Subscript(value=S, slice=ast.Name(id=iv, ctx=ast.Load()), ctx=ast.Load())
+        it_t = f"range(len({ast.unparse(S)}))"
+    elif isinstance(target, ast.Name):
+        iv = target.id
+        it_t = ast.unparse(it_x)
+    else:
+        return None
+
+    class R(ast.NodeTransformer):
+        def visit_Name(s_, n):
+            if n.id in sub:
+                return sub[n.id]
+            return n
+
+    from engine.util import clone_ast
+
+    tt = []
+    for t in tests:
+        x = R().visit(clone_ast(t))
+        # expand the free names of the test (aliases such as children_left = model.tree_.children_left)
+        names = {n.id for n in ast.walk(x) if isinstance(n, ast.Name)} - {iv}
+        for nm in names:
+            v = ex.norm_expr(ast.Name(id=nm, ctx=ast.Load()), fi, at)
+            if not (isinstance(v, ast.Name) and v.id == nm):
+                sub2 = {nm: v}
+
+                class R2(ast.NodeTransformer):
+                    def visit_Name(s_, n):
+                        return sub2.get(n.id, n)
+
+                x = R2().visit(x)
+        tt.append(ast.unparse(x))
+    return iv, it_t, tt
+
+
+def _site_ok(ck, fi, node, iv, it_t, tests, elt_ok=True):
+    t = " and ".join(tests) if len(tests) > 1 else (tests[0] if tests else "")
+    p = _leaf_pred_text(t)
+    if p is None:
+        ck.violated("C12.a", fi, node, f"leaf test {t!r} is not one of the two confirmed leaf predicates (children_left[i] == TREE_LEAF, or both children <= i): internal nodes are listed as leaves or leaves are missed")
+        return False
+    tree, i2 = p
+    ok = i2 == iv and it_t in (f"range(len({tree}.children_left))", f"range(0, len({tree}.children_left))", f"range({tree}.node_count)", f"range(0, {tree}.node_count)") and elt_ok
+    ck.verdict(ok, "C12.a", fi, node, "all node ids are examined with a confirmed leaf predicate", f"the enumeration runs over {it_t!r} (variable {iv}), not over every node id of {tree}")
+    return ok
+
+
+def _enumeration_sites(ck, repo, fi):
+    """leaf-enumeration sites of a function; returns the list of (node, ok)"""
+    out = []
+    for c in own_nodes_incl_lambda(fi.node):
+        if isinstance(c, (ast.ListComp, ast.GeneratorExp, ast.SetComp)) and len(c.generators) == 1 and c.generators[0].ifs:
+            g = c.generators[0]
+            r = _norm_enumeration(repo, fi, g.target, g.iter, g.ifs, stmt_of(c))
+            if r is None:
+                continue
+            iv, it_t, tests = r
+            raws = " ".join(src_of(t) for t in g.ifs)
+            if not ("children_left" in raws or "children_right" in raws or "TREE_LEAF" in raws):
+                continue
+            out.append((c, _site_ok(ck, fi, c, iv, it_t, tests, src_of(c.elt) == iv)))
+        if isinstance(c, ast.For):
+            for s in c.body:
+                if isinstance(s, ast.If):
+                    raw = src_of(s.test)
+                    if not ("children_left" in raw or "children_right" in raw or "TREE_LEAF" in raw):
+                        continue
+                    r = _norm_enumeration(repo, fi, c.target, c.iter, [s.test], c)
+                    if r is None:
+                        continue
+                    iv, it_t, tests = r
+                    out.append((s, _site_ok(ck, fi, s.test, iv, it_t, tests)))
+    return out
 
 
 def check_a(ck, repo):
@@ -50,177 +137,256 @@ def check_a(ck, repo):
     for fi in sorted(repo.all_functions.values(), key=lambda f: f.qualname):
         if not fi.module.name.startswith(("mlinsights.mltree", "mlinsights.mlmodel")):
             continue
-        # comprehension form
-        for c in own_nodes_incl_lambda(fi.node):
-            if isinstance(c, ast.ListComp) and len(c.generators) == 1 and c.generators[0].ifs and "children_left" in src_of(c.generators[0].ifs[0]):
-                g = c.generators[0]
-                n += 1
-                p = _leaf_pred(g.ifs[0])
-                it = src_of(g.iter)
-                if p is None:
-                    ck.violated("C12.a", fi, c, f"leaf test {src_of(g.ifs[0])!r} is not one of the two confirmed leaf predicates: internal nodes are listed as leaves or leaves are missed")
-                    continue
-                tree, iv = p
-                ok_iter = it in (f"range(len({tree}.children_left))", f"range({tree}.node_count)") and src_of(g.target) == iv and src_of(c.elt) == iv
-                ck.verdict(ok_iter, "C12.a", fi, c, "all node ids are examined with a confirmed leaf predicate", f"the enumeration runs over {it!r}, not over every node id of {tree}")
-            # loop form: for i in range(...): if <pred>: ...
-            if isinstance(c, ast.For) and isinstance(c.target, ast.Name):
-                for s in c.body:
-                    if isinstance(s, ast.If) and "children_left" in src_of(s.test) and "TREE_LEAF" in src_of(s.test) or (isinstance(s, ast.If) and "children_left" in src_of(s.test) and "children_right" in src_of(s.test)):
-                        n += 1
-                        p = _leaf_pred(s.test)
-                        if p is None:
-                            ck.violated("C12.a", fi, s.test, f"leaf test {src_of(s.test)!r} is not one of the two confirmed leaf predicates")
-                            continue
-                        tree, iv = p
-                        it = src_of(c.iter)
-                        ck.verdict(it in (f"range({tree}.node_count)", f"range(len({tree}.children_left))") and iv == c.target.id, "C12.a", fi, s.test, "loop over all node ids with a confirmed leaf predicate", f"loop runs over {it!r}, not over every node id")
-    # tree_leave_index: its test must be a confirmed leaf predicate (anchored site)
+        n += len(_enumeration_sites(ck, repo, fi))
+    # tree_leave_index: returns exactly the node ids selected by a confirmed leaf predicate
     tl = repo.func(TS, "tree_leave_index")
-    tests = [x for x in own_nodes(tl.node) if isinstance(x, ast.If)]
-    okp = len(tests) == 1 and _leaf_pred(tests[0].test) is not None
-    ck.verdict(okp, "C12.a", tl, tests[0].test if tests else "if <leaf predicate>", "tree_leave_index selects nodes with a confirmed leaf predicate", f"tree_leave_index selects nodes with `{src_of(tests[0].test) if tests else None}`, which is not a leaf predicate (children_left[i] == TREE_LEAF, or both children <= i): a split node can be listed as a leaf")
-    app = [src_of(s) for s in own_nodes(tl.node) if isinstance(s, ast.Expr)]
-    ck.verdict("res.append(i)" in app, "C12.a", tl, "res.append(i)", "leaf ids collected", "tree_leave_index does not collect the leaf id")
+    ok_sites = 0
+    what = None
+    for c in own_nodes_incl_lambda(tl.node):
+        if isinstance(c, (ast.ListComp, ast.For)):
+            what = c
+    rets = [r for r in own_nodes(tl.node) if isinstance(r, ast.Return)]
+    collected = False
+    tests_seen = []
+    for c in own_nodes_incl_lambda(tl.node):
+        if isinstance(c, ast.ListComp) and len(c.generators) == 1:
+            g = c.generators[0]
+            r = _norm_enumeration(repo, tl, g.target, g.iter, g.ifs, stmt_of(c))
+            if r and g.ifs:
+                tests_seen += r[2]
+                if _leaf_pred_text(" and ".join(r[2])) and src_of(c.elt) == r[0]:
+                    collected = any(r_.value is c or (isinstance(r_.value, ast.Name) and any(isinstance(a, ast.Assign) and src_of(a.targets[0]) == r_.value.id and a.value is c for a in own_nodes(tl.node))) for r_ in rets)
+        if isinstance(c, ast.For):
+            for s_ in c.body:
+                if isinstance(s_, ast.If) and not s_.orelse:
+                    r = _norm_enumeration(repo, tl, c.target, c.iter, [s_.test], c)
+                    if r:
+                        tests_seen += r[2]
+                    if r and _leaf_pred_text(r[2][0]):
+                        apps = [x for x in s_.body if isinstance(x, ast.Expr) and isinstance(x.value, ast.Call) and isinstance(x.value.func, ast.Attribute) and x.value.func.attr == "append" and [src_of(a) for a in x.value.args] == [r[0]]]
+                        if len(apps) == 1 and len(s_.body) == 1:
+                            acc = src_of(apps[0].value.func.value)
+                            collected = all(isinstance(r_.value, ast.Name) and r_.value.id == acc for r_ in rets) and bool(rets)
+    ck.verdict(collected, "C12.a", tl, f"tree_leave_index: test {tests_seen}", "tree_leave_index returns the node ids selected by a confirmed leaf predicate", f"tree_leave_index selects nodes with `{tests_seen}` / does not return exactly the ids satisfying a leaf predicate (children_left[i] == TREE_LEAF, or both children <= i): a split node can be listed as a leaf")
     # tree_node_parents: both children recorded for internal nodes
     tp = repo.func(TS, "tree_node_parents")
-    t = [src_of(s) for s in own_nodes(tp.node) if isinstance(s, ast.Assign)]
-    ck.verdict("parents[tree.children_left[i]] = i" in t and "parents[tree.children_right[i]] = -i" in t, "C12.a", tp, "parents[left] = i; parents[right] = -i", "both children point to their parent", "tree_node_parents does not record both children of an internal node")
+    loops = [l for l in own_nodes(tp.node) if isinstance(l, ast.For) and isinstance(l.target, ast.Name)]
+    okp = False
+    if len(loops) == 1:
+        iv = loops[0].target.id
+        st = {}
+        for p in block_paths(tp, loops[0].body):
+            if p.ret in (CONTINUE, BREAK):
+                continue
+            st = {k: ast.unparse(v) for k, v in p.stores.items()}
+            leaf_skipped = any((t.endswith(".children_left[%s] == TREE_LEAF" % iv) or (t.startswith("TREE_LEAF == ") and t.endswith(".children_left[%s]" % iv))) and not pol for t, pol in p.conds)
+            okp = leaf_skipped and len(st) == 2 and any(k.endswith(f".children_left[{iv}]]") and v == iv for k, v in st.items()) and any(k.endswith(f".children_right[{iv}]]") and v == f"-{iv}" for k, v in st.items())
+    ck.verdict(okp, "C12.a", tp, "parents[left] = i; parents[right] = -i", "both children of every internal node point to their parent (right child marked by the sign)", "tree_node_parents does not record both children of an internal node")
     # predict_leaves
     pl = repo.func(TS, "predict_leaves")
-    st = [src_of(s) for s in sorted((x for x in own_nodes(pl.node) if isinstance(x, (ast.Assign, ast.Return))), key=lambda x: x.lineno)]
-    want = ["leaves = model.decision_path(X)", "leaves = leaves[:, leaves_index]", "mat = numpy.argmax(leaves, 1)", "res = numpy.asarray(mat).ravel()", "res = numpy.array([leaves_index[r] for r in res])", "return res"]
-    have = [s for s in st if s in want]
-    ck.verdict(have == want, "C12.a", pl, "columns selected by leaves_index, argmax mapped back through leaves_index", "one index list selects the columns and translates the argmax back", f"predict_leaves no longer selects and translates with the same leaves_index (found {have})")
+    Xp = pl.named_params[1]
+    okl = True
+    n_paths = 0
+    for p in paths(pl):
+        if p.ret in (None, RAISE):
+            continue
+        n_paths += 1
+        r = p.ret
+        ok1 = False
+        if isinstance(r, ast.Call) and ast.unparse(r.func) in ("numpy.array", "numpy.asarray") and r.args and isinstance(r.args[0], (ast.ListComp, ast.GeneratorExp)) and len(r.args[0].generators) == 1 and not r.args[0].generators[0].ifs:
+            comp = r.args[0]
+            g = comp.generators[0]
+            if isinstance(comp.elt, ast.Subscript) and isinstance(g.target, ast.Name) and ast.unparse(comp.elt.slice) == g.target.id:
+                LI = ast.unparse(comp.elt.value)
+                pos = _unwrap(g.iter)
+                if isinstance(pos, ast.Call) and ast.unparse(pos.func) == "numpy.argmax" and pos.args:
+                    ax = pos.args[1] if len(pos.args) > 1 else next((k.value for k in pos.keywords if k.arg == "axis"), None)
+                    ok1 = ax is not None and ast.unparse(ax) == "1" and ast.unparse(pos.args[0]) == f"model.decision_path({Xp})[:, {LI}]"
+        okl = okl and ok1
+    ck.verdict(okl and n_paths >= 1, "C12.a", pl, "columns selected by leaves_index, argmax mapped back through leaves_index", "one index list selects the columns and translates the argmax back", "predict_leaves no longer selects the decision-path columns and translates the argmax back with the same leaves_index")
     return n
+
+
+def _unwrap(x: ast.AST) -> ast.AST:
+    while True:
+        if isinstance(x, ast.Call) and isinstance(x.func, ast.Attribute) and x.func.attr in ("ravel", "flatten", "tolist") and not x.args:
+            x = x.func.value
+        elif isinstance(x, ast.Call) and ast.unparse(x.func) in ("numpy.asarray", "numpy.array", "list", "numpy.ravel") and x.args:
+            x = x.args[0]
+        else:
+            return x
 
 
 def check_b(ck, repo):
     fi = repo.func(TS, "tree_node_range")
-    lr = [s for s in own_nodes(fi.node) if isinstance(s, ast.Assign) and src_of(s.targets[0]) == "lr"]
-    ok = len(lr) == 1 and src_of(lr[0].value) in ("tree.children_left[p] == path[ind + 1]", "path[ind + 1] == tree.children_left[p]")
-    ck.verdict(ok, "C12.b", fi, lr[0] if lr else "lr = tree.children_left[p] == path[ind + 1]", "lr is true iff the path continues into the left child", "the left/right flag is not `children_left[p] == next node on the path`")
-    iff = [s for s in own_nodes(fi.node) if isinstance(s, ast.If) and src_of(s.test) == "lr"]
-    if len(iff) != 1:
-        ck.unknown("C12.b", fi, "if lr:", "orientation branch not found")
+    loops = [l for l in own_nodes(fi.node) if isinstance(l, ast.For) and isinstance(l.iter, ast.Call) and src_of(l.iter.func) == "enumerate"]
+    if len(loops) != 1 or not (isinstance(loops[0].target, ast.Tuple) and len(loops[0].target.elts) == 2):
+        ck.unknown("C12.b", fi, "for ind, p in enumerate(path)", "walk along the root-to-node path not found")
         return
-    b, e = iff[0].body, iff[0].orelse
-    okb = len(b) == 1 and src_of(b[0]) == "res[fn, 1] = min(res[fn, 1], th) if not numpy.isnan(res[fn, 1]) else th"
-    oke = len(e) == 1 and src_of(e[0]) == "res[fn, 0] = max(res[fn, 0], th) if not numpy.isnan(res[fn, 0]) else th"
-    ck.verdict(okb, "C12.b", fi, b[0] if b else "left branch", "left child: x <= th, so the upper bound (column 1) becomes min(upper, th)", "going left must tighten the UPPER bound with min: the box no longer contains exactly the points routed to the leaf")
-    ck.verdict(oke, "C12.b", fi, e[0] if e else "right branch", "right child: x > th, so the lower bound (column 0) becomes max(lower, th)", "going right must tighten the LOWER bound with max")
-    for nm, want in (("fn", "tree.feature[p]"), ("th", "tree.threshold[p]")):
-        d = [s for s in own_nodes(fi.node) if isinstance(s, ast.Assign) and src_of(s.targets[0]) == nm]
-        ck.verdict(len(d) == 1 and src_of(d[0].value) == want, "C12.b", fi, d[0] if d else f"{nm} = {want}", f"{nm} read from the split node p", f"{nm} is not {want}")
-    stop = [s for s in own_nodes(fi.node) if isinstance(s, ast.If) and src_of(s.test) == "p == i" and any(isinstance(x, ast.Break) for x in s.body)]
-    ck.verdict(len(stop) == 1, "C12.b", fi, "if p == i: break", "the node itself contributes no constraint", "the walk does not stop at the node itself")
-    path = [s for s in own_nodes(fi.node) if isinstance(s, ast.Assign) and src_of(s.targets[0]) == "path"]
-    ck.verdict(len(path) == 1 and src_of(path[0].value) == "tree_find_path_to_root(tree, i, parents)", "C12.b", fi, path[0] if path else "path = ...", "constraints come from the root-to-node path", "path is not the root-to-node path")
+    l = loops[0]
+    ind, pv = [src_of(e) for e in l.target.elts]
+    ex = expander(repo)
+    pth = src_of(l.iter.args[0])
+    ptx = ex.text(l.iter.args[0], fi, l)
+    node_p = fi.named_params[1]
+    ck.verdict(ptx in (want(repo, f"tree_find_path_to_root(tree, {node_p}, parents)", fi, l), want(repo, f"tree_find_path_to_root(tree, {node_p}, parents=parents)", fi, l)), "C12.b", fi, f"path = {ptx[:60]}", "constraints come from the root-to-node path", "path is not the root-to-node path")
+    ps = block_paths(fi, l.body)
+    stop = [p for p in ps if p.ret == BREAK]
+    ck.verdict(len(stop) == 1 and stop[0].conds == ((f"{node_p} == {pv}", True),) or len(stop) == 1 and stop[0].conds == ((f"{pv} == {node_p}", True),), "C12.b", fi, f"if {pv} == {node_p}: break", "the node itself contributes no constraint", "the walk does not stop at the node itself")
+    going = [p for p in ps if p.ret is None]
+    left_fact = None
+    seen = {}
+    for p in going:
+        side = None
+        for t, pol in p.conds:
+            if t in (f"tree.children_left[{pv}] == {pth}[{ind} + 1]", f"tree.children_left[{pv}] == {pth}[1 + {ind}]", f"{pth}[{ind} + 1] == tree.children_left[{pv}]"):
+                side = "left" if pol else "right"
+            if t in (f"tree.children_right[{pv}] == {pth}[{ind} + 1]", f"tree.children_right[{pv}] == {pth}[1 + {ind}]"):
+                side = "right" if pol else "left"
+        if side is None or len(p.stores) != 1:
+            seen["?"] = (sorted(p.conds), {k: ast.unparse(v) for k, v in p.stores.items()})
+            continue
+        (k, v), = p.stores.items()
+        seen[side] = (k, ast.unparse(v))
+    F, T = f"tree.feature[{pv}]", f"tree.threshold[{pv}]"
+
+    def forms(col, fn):
+        U = f"res[{F}, {col}]"
+        return {ctext(f"{T} if numpy.isnan({U}) else {fn}({U}, {T})"), ctext(f"{T} if numpy.isnan({U}) else {fn}({T}, {U})"), ctext(f"numpy.fmin({U}, {T})") if fn == "min" else ctext(f"numpy.fmax({U}, {T})"), ctext(f"numpy.fmin({T}, {U})") if fn == "min" else ctext(f"numpy.fmax({T}, {U})")}
+
+    lf = seen.get("left")
+    rg = seen.get("right")
+    ck.verdict("?" not in seen and lf is not None and rg is not None, "C12.b", fi, f"left/right decided by children_left[{pv}] == next node on the path", "the side is decided by comparing the left child with the next node on the path", f"the left/right flag is not `children_left[p] == next node on the path`: {seen.get('?')}")
+    ck.verdict(lf is not None and lf[0] == ctext(f"res[{F}, 1]") and ctext(lf[1]) in forms(1, "min"), "C12.b", fi, f"left: {lf}", "left child: x <= th, so the upper bound (column 1) becomes min(upper, th)", "going left must tighten the UPPER bound with min: the box no longer contains exactly the points routed to the leaf")
+    ck.verdict(rg is not None and rg[0] == ctext(f"res[{F}, 0]") and ctext(rg[1]) in forms(0, "max"), "C12.b", fi, f"right: {rg}", "right child: x > th, so the lower bound (column 0) becomes max(lower, th)", "going right must tighten the LOWER bound with max")
+
+
+def _kind(repo, fi, nested_names, c: ast.Call, values_name: str) -> Optional[str]:
+    f = src_of(c.func)
+    if f == "tree_add_node":
+        return "node"
+    if f == f"{values_name}.append":
+        return "value"
+    if f.split("%")[0] in nested_names:
+        return "rec"
+    return None
 
 
 def check_c(ck, repo):
     fi = repo.func(TD, "digitize2tree")
-    # right=False refused first
-    first = [s for s in fi.node.body if not (isinstance(s, ast.Expr) and isinstance(s.value, ast.Constant))][0]
-    ck.verdict(isinstance(first, ast.If) and src_of(first.test) == "not right" and isinstance(first.body[0], ast.Raise), "C12.c", fi, first.test if isinstance(first, ast.If) else first, "right=False is refused before anything is built", "digitize2tree no longer refuses right=False (a tree can only encode x <= threshold)")
-    asc = [s for s in fi.node.body if isinstance(s, ast.Assign) and src_of(s.targets[0]) == "ascending"]
-    ck.verdict(len(asc) == 1 and src_of(asc[0].value) == "len(bins) <= 1 or bins[0] < bins[1]", "C12.c", fi, asc[0] if asc else "ascending = ...", "direction decided from the first two edges", "direction test changed")
-    desc = [s for s in fi.node.body if isinstance(s, ast.If) and src_of(s.test) == "not ascending"]
-    if len(desc) != 1:
-        ck.unknown("C12.c", fi, "if not ascending:", "descending branch not found")
-    else:
-        t = [src_of(s) for s in desc[0].body]
-        ok = t[:3] == ["bins2 = bins[::-1]", "cl = digitize2tree(bins2, right=right)", "n = len(bins)"] and t[-1] == "return cl"
-        loop = [s for s in desc[0].body if isinstance(s, ast.For)]
-        okl = len(loop) == 1 and src_of(loop[0].iter) == "range(cl.tree_.value.shape[0])" and [src_of(x) for x in loop[0].body] == ["cl.tree_.value[i, 0, 0] = n - cl.tree_.value[i, 0, 0]"]
-        ck.verdict(ok and okl, "C12.c", fi, desc[0].test, "descending bins: tree of the reversed bins with values remapped to len(bins) - v", "descending case is not `tree(reversed bins)` with every value v replaced by len(bins) - v")
-    # branches of add_root / add_nodes
-    for name in ("add_root", "add_nodes"):
-        g = repo.nested(fi, name)
-        branches = _terminal_blocks(g.node)
-        for blk in branches:
-            calls = [(s.lineno, "node") for s in blk if _has_call(s, "tree_add_node")] + [(s.lineno, "value") for s in blk if _has_call(s, "values.append")]
-            rec = [s.lineno for s in blk if _has_call(s, "add_nodes")]
-            label = f"{name} branch at line {blk[0].lineno}"
-            if not calls and not rec:
+    bins_p, right_p = fi.named_params[0], fi.named_params[1]
+    # right=False refused before anything is built
+    ps = paths(fi, {right_p: False})
+    ck.verdict(bool(ps) and all(p.ret == RAISE and not p.calls[:0] and not any(isinstance(c, ast.Call) and src_of(c.func) in ("Tree", "tree_add_node") for c in p.calls) for p in ps), "C12.c", fi, f"{right_p}=False -> {[p.raised for p in ps]}", "right=False is refused before anything is built", "digitize2tree no longer refuses right=False (a tree can only encode x <= threshold)")
+    ps = [p for p in paths(fi, {right_p: True})]
+    asc_t = ctext(f"len({bins_p}) <= 1 or {bins_p}[0] < {bins_p}[1]")
+    d_fact = cond_text(f"{bins_p}[0] < {bins_p}[1]", False)
+    desc = [p for p in ps if d_fact in p.conds]
+    asc = [p for p in ps if p not in desc]
+    okd = len(desc) == 1
+    if okd:
+        p = desc[0]
+        rec = f"digitize2tree({bins_p}[::-1], right=True)"
+        rt = p.ret_text() if p.ret not in (None, RAISE) else None
+        okd = rt in (rec, f"digitize2tree({bins_p}[::-1], True)")
+        st = {k: ast.unparse(v) for k, v in p.stores.items()}
+        okd = okd and len(st) == 1
+        if okd:
+            (k, v), = st.items()
+            m = re.match(r"^(.*)\.tree_\.value\[(.+), 0, 0\]$", k)
+            okd = m is not None and m.group(1) == rt and (m.group(2) == ":" or "%L" in m.group(2)) and ctext(v) == ctext(f"len({bins_p}) - {k}")
+    ck.verdict(okd, "C12.c", fi, "descending bins", "descending bins: tree of the reversed bins with every value v remapped to len(bins) - v", "descending case is not `tree(reversed bins)` with every value v replaced by len(bins) - v")
+    # nested builders
+    nested = [f for f in repo.all_functions.values() if f.parent is fi]
+    names = {f.name for f in nested}
+    vals = None
+    for s_ in own_nodes(fi.node):
+        if isinstance(s_, ast.Assign) and isinstance(s_.value, ast.List) and not s_.value.elts and isinstance(s_.targets[0], ast.Name):
+            nm = s_.targets[0].id
+            if any(isinstance(c, ast.Call) and src_of(c.func) == f"{nm}.append" and c.args and src_of(c.args[0]) == "UNUSED" for g in nested for c in ast.walk(g.node)):
+                vals = nm
+    if vals is None:
+        raise AnalysisError("anchor vanished: the list of node values in digitize2tree")
+    n_branches = 0
+    for g in sorted(nested, key=lambda f: f.node.lineno):
+        for p in paths(g):
+            ev = [(k, c) for c in p.calls for k in [_kind(repo, g, names, c, vals)] if k]
+            if not ev:
                 continue
-            n_node = sum(1 for _, k in calls if k == "node")
-            n_val = sum(1 for _, k in calls if k == "value")
-            before = all(l < min(rec) for l, _ in calls) if rec else True
-            ck.verdict(n_node == 1 and n_val == 1 and before, "C12.c", g, blk[0], f"{label}: one tree_add_node and one values.append before any recursive call (node ids and values stay aligned)", f"{label}: {n_node} tree_add_node / {n_val} values.append" + ("" if before else " after a recursive call") + ": values[k] no longer belongs to node k")
-            # leaf/value and split/UNUSED pairing
-            node_call = [c for s in blk for c in ast.walk(s) if isinstance(c, ast.Call) and src_of(c.func) == "tree_add_node"]
-            val_call = [c for s in blk for c in ast.walk(s) if isinstance(c, ast.Call) and src_of(c.func) == "values.append"]
-            if len(node_call) == 1 and len(val_call) == 1:
-                a = node_call[0].args
-                is_leaf = src_of(a[3]) if len(a) > 3 else None
-                v = src_of(val_call[0].args[0])
-                th = src_of(a[5]) if len(a) > 5 else None
-                if is_leaf == "True":
-                    ck.verdict(v != "UNUSED" and th == "0", "C12.c", g, node_call[0], f"{label}: leaf carries the bin number {v}", f"{label}: a leaf is stored with value {v}")
-                elif is_leaf in ("False", "is_leaf"):
-                    thdef = None
-                    if th in ("th", "threshold"):
-                        d = [s for s in blk if isinstance(s, ast.Assign) and src_of(s.targets[0]) == th]
-                        thdef = src_of(d[0].value) if d else None
-                    ck.verdict(v == "UNUSED" and thdef is not None and thdef.startswith("bins["), "C12.c", g, node_call[0], f"{label}: split node has no value and threshold {thdef}", f"{label}: a split node has value {v} / threshold {thdef}; expected UNUSED and bins[...]")
-                ck.verdict(src_of(a[0]) == "tree" and src_of(a[1]) == "parent" and src_of(a[2]) == "is_left", "C12.c", g, f"{label}: tree_add_node(tree, parent, is_left, ...)", "node attached to its parent on the side it was built for", f"{label}: node is attached with ({', '.join(src_of(x) for x in a[:3])})")
-        # recursive calls pass the new node as parent
-        for c in [x for x in own_nodes_incl_lambda(g.node) if isinstance(x, ast.Call) and src_of(x.func) == "add_nodes"]:
-            a = [src_of(x) for x in c.args]
-            ck.verdict(a[0] == "n" and a[3] in ("True", "False"), "C12.c", g, c, "children are attached to the node just created", f"recursive call {a} does not attach to the node just created")
-    # split recursion covers [i, index) left and [index, j) right
-    an = repo.nested(fi, "add_nodes")
-    recs = [[src_of(x) for x in c.args] for c in own_nodes_incl_lambda(an.node) if isinstance(c, ast.Call) and src_of(c.func) == "add_nodes"]
-    want = sorted([["n", "i", "i", "True"], ["n", "i", "j", "False"], ["n", "i", "index", "True"], ["n", "index", "j", "False"], ["n", "i", "index", "True"], ["n", "index", "j", "False"]])
-    ck.verdict(sorted(recs) == want, "C12.c", an, f"recursive calls {sorted(recs)}", "left child covers [i, index), right child [index, j)", f"recursive ranges changed: {sorted(recs)}")
-    mids = [src_of(s.value) for s in own_nodes(an.node) if isinstance(s, ast.Assign) and src_of(s.targets[0]) == "index"]
-    ck.verdict(mids == ["(i + j) // 2"] * len(mids) and len(mids) == 2, "C12.c", an, f"index = {mids}", "split at the middle edge", "split index is not (i + j) // 2")
+            n_branches += 1
+            label = f"{g.name} path {' and '.join(t if pol else f'not ({t})' for t, pol in p.conds)[:70] or '(unconditional)'}"
+            kinds = [k for k, _ in ev]
+            nn, nv = kinds.count("node"), kinds.count("value")
+            if nn == 0 and nv == 0:
+                # pure delegation to another builder: its result is returned
+                ck.verdict(kinds == ["rec"] and isinstance(p.ret, ast.Call), "C12.c", g, label, "the path delegates to another builder and returns its node", f"{label}: calls builders {kinds} without creating a node")
+                continue
+            first_rec = kinds.index("rec") if "rec" in kinds else len(kinds)
+            before = all(i_ < first_rec for i_, k in enumerate(kinds) if k in ("node", "value"))
+            ck.verdict(nn == 1 and nv == 1 and before, "C12.c", g, label, "one tree_add_node and one values.append before any recursive call (node ids and values stay aligned)", f"{label}: {nn} tree_add_node / {nv} values.append" + ("" if before else " after a recursive call") + ": values[k] no longer belongs to node k")
+            if nn != 1 or nv != 1:
+                continue
+            node = next(c for k, c in ev if k == "node")
+            val = next(c for k, c in ev if k == "value")
+            a = [ast.unparse(x) for x in node.args]
+            v = ast.unparse(val.args[0]) if val.args else None
+            is_leaf = a[3] if len(a) > 3 else None
+            th = a[5] if len(a) > 5 else None
+            if is_leaf == "True":
+                ck.verdict(v not in ("UNUSED", "numpy.nan") and th == "0", "C12.c", g, f"{label}: leaf", f"leaf carries the bin number {v}", f"{label}: a leaf is stored with value {v} / threshold {th}")
+            else:
+                ck.verdict(is_leaf == "False" and v in ("UNUSED", "numpy.nan") and th is not None and th.startswith(f"{bins_p}["), "C12.c", g, f"{label}: split", f"split node has no value and threshold {th}", f"{label}: a split node has value {v} / threshold {th}; expected UNUSED and bins[...]")
+            if g.name == "add_root" or a[1] in ("-1",):
+                ck.verdict(a[:3] == ["tree", "-1", "False"], "C12.c", g, f"{label}: root", "the root has no parent", f"{label}: root attached with {a[:3]}")
+            else:
+                gp = g.named_params
+                ck.verdict(a[0] == "tree" and a[1] == gp[0] and a[2] in gp, "C12.c", g, f"{label}: tree_add_node(tree, {a[1]}, {a[2]}, ...)", "node attached to its parent on the side it was built for", f"{label}: node is attached with ({', '.join(a[:3])})")
+            recs = [c for k, c in ev if k == "rec"]
+            if recs:
+                ra = [[ast.unparse(x) for x in c.args] for c in recs]
+                nt = ast.unparse(node)
+                i_p, j_p = (g.named_params[1], g.named_params[2]) if len(g.named_params) >= 3 else ("i", "j")
+                mid = ctext(f"({i_p} + {j_p}) // 2")
+                ok = len(ra) == 2 and all(len(x) == 4 for x in ra) and ra[0][0] == nt and ra[1][0] == nt and ra[0][1] == i_p and ra[1][2] == j_p and ra[0][2] == ra[1][1] and ra[0][3] == "True" and ra[1][3] == "False" and ctext(ra[0][2]) in (mid, i_p)
+                if ok and ctext(ra[0][2]) == i_p:
+                    ok = (ctext(f"{i_p} + 1 == {j_p}"), True) in p.conds or (ctext(f"{j_p} == {i_p} + 1"), True) in p.conds
+                ck.verdict(ok, "C12.c", g, f"{label}: children {[(x[1], x[2], x[3]) for x in ra]}", "children are attached to the node just created; left covers [i, m), right [m, j), m the middle edge", f"{label}: recursive calls {[(x[0][:20], x[1], x[2], x[3]) for x in ra]}: ranges changed, or children are not attached to the node just created")
+                if is_leaf == "False" and th is not None and len(ra) == 2:
+                    ck.verdict(ctext(th) == ctext(f"{bins_p}[{ra[0][2]}]"), "C12.c", g, f"{label}: threshold {th}", "the threshold is the edge that separates the two children", f"{label}: threshold {th} is not bins[{ra[0][2]}], the edge between the two child ranges")
+    ck.verdict(n_branches >= 6, "C12.c", fi, f"{n_branches} node-creating paths in the builders", "root, two leaf cases and the split cases are all present", f"only {n_branches} node-creating paths were found")
     # top level
-    body = [src_of(s) for s in fi.node.body]
-    ok = all(x in body for x in ["index = len(bins) // 2", "add_root(index)", "add_nodes(0, 0, index, True)", "add_nodes(0, index, len(bins), False)", "cl.tree_.value[:, 0, 0] = numpy.array(values, dtype=numpy.float64)"])
-    ck.verdict(ok, "C12.c", fi, "root at len(bins) // 2; values copied into tree_.value", "root split in the middle, both halves built, values installed in node order", "top-level construction changed")
+    oka = len(asc) >= 1
+    for p in asc:
+        if p.ret == RAISE:
+            continue
+        top = [c for c in p.calls if src_of(c.func).split("%")[0] in names]
+        ta = [(src_of(c.func).split("%")[0], [ast.unparse(x) for x in c.args]) for c in top]
+        M = ctext(f"len({bins_p}) // 2")
+        want_ = [("add_root", [M]), ("add_nodes", ["0", "0", M, "True"]), ("add_nodes", ["0", M, f"len({bins_p})", "False"])]
+        st = {k: ast.unparse(v) for k, v in p.stores.items()}
+        inst = [v for k, v in st.items() if k.endswith(".tree_.value[:, 0, 0]")]
+        oka = oka and ta == want_ and inst == [f"numpy.array({vals}, dtype=numpy.float64)"]
+    ck.verdict(oka, "C12.c", fi, "root at len(bins) // 2; values copied into tree_.value", "root split in the middle, both halves built, values installed in node order", "top-level construction changed")
     # pyx wrapper passes arguments through in order
     from engine import cysrc
 
     try:
         m = cysrc.parse(repo, "mlinsights/mltree/_tree_digitize.pyx")
         w = m.functions.get("tree_add_node")
-        inner = m.functions.get("_tree_add_node")
-        if w is None or inner is None:
+        if w is None:
             raise AnalysisError("anchor vanished: tree_add_node in _tree_digitize.pyx")
         params = [a.arg for a in w.args.args]
         r = [x for x in ast.walk(w) if isinstance(x, ast.Return)]
         ok = len(r) == 1 and isinstance(r[0].value, ast.Call) and [src_of(a) for a in r[0].value.args] == params
-        ck.verdict(ok, "C12.c", None, "tree_add_node -> _tree_add_node(same arguments)", "wrapper forwards its arguments in order", "the Python wrapper reorders or drops arguments of _tree_add_node", file="mlinsights/mltree/_tree_digitize.pyx", function="tree_add_node", line=w.lineno)
-        ip = [a.arg for a in inner.args.args]
-        r = [x for x in ast.walk(inner) if isinstance(x, ast.Return)]
-        ok = len(r) == 1 and isinstance(r[0].value, ast.Call) and src_of(r[0].value.func) == "tree._add_node" and [src_of(a) for a in r[0].value.args] == ip[1:]
-        ck.verdict(ok, "C12.c", None, "_tree_add_node -> tree._add_node(parent, is_left, is_leaf, ...)", "arguments reach Tree._add_node in its own order", "arguments of Tree._add_node are reordered", file="mlinsights/mltree/_tree_digitize.pyx", function="_tree_add_node", line=inner.lineno)
+        inner = m.functions.get(src_of(r[0].value.func)) if ok else None
+        ck.verdict(ok and inner is not None, "C12.c", None, "tree_add_node -> cdef helper(same arguments)", "wrapper forwards its arguments in order", "the Python wrapper reorders or drops arguments of the cdef helper", file="mlinsights/mltree/_tree_digitize.pyx", function="tree_add_node", line=w.lineno)
+        if inner is not None:
+            ip = [a.arg for a in inner.args.args]
+            r = [x for x in ast.walk(inner) if isinstance(x, ast.Return)]
+            ok = len(r) == 1 and isinstance(r[0].value, ast.Call) and src_of(r[0].value.func) == f"{ip[0]}._add_node" and [src_of(a) for a in r[0].value.args] == ip[1:]
+            ck.verdict(ok, "C12.c", None, "cdef helper -> tree._add_node(parent, is_left, is_leaf, ...)", "arguments reach Tree._add_node in its own order", "arguments of Tree._add_node are reordered", file="mlinsights/mltree/_tree_digitize.pyx", function=inner.name, line=inner.lineno)
     except ImportError as e:
         ck.unknown("C12.c", None, "Cython parser", str(e), file="-", function="-", line=0)
-
-
-def _has_call(stmt, name):
-    return any(isinstance(c, ast.Call) and src_of(c.func) == name for c in ast.walk(stmt)) and not isinstance(stmt, (ast.If, ast.For, ast.While))
-
-
-def _terminal_blocks(fn: ast.AST) -> List[List[ast.stmt]]:
-    """statement lists that contain no nested If (the leaves of the branch tree)"""
-    out = []
-
-    def rec(body):
-        simple = [s for s in body if not isinstance(s, ast.If)]
-        if simple and any(not (isinstance(s, ast.Expr) and isinstance(s.value, ast.Constant)) for s in simple):
-            out.append(simple)
-        for s in body:
-            if isinstance(s, ast.If):
-                rec(s.body)
-                if s.orelse:
-                    rec(s.orelse)
-
-    rec(fn.body)
-    return out
 
 
 def run(ck):
